@@ -49,6 +49,14 @@ def build_cases(tier, rng):
             out.append((f"verify {s} pure bytes:{fpk0.hex()} {hx(fmsg)} - {fsig0.hex()}", 'forgery with hints at coefficients 0 and 255 of every polynomial', ('verify', s, fpk0, fmsg, fsig0, b'', 'pure'), ok0))
             for tag, sg in fam.hint_section_mutations(rng, p, fsig0):
                 out.append((f"verify {s} pure bytes:{fpk0.hex()} {hx(fmsg)} - {sg.hex()}", 'malformed hint (forged, index 0 present): ' + tag, ('verify', s, fpk0, fmsg, sg, b'', 'pure'), False))
+        # the same for a forged signature whose hints sit in the first polynomial only (empty interior and last polynomials: a decoder
+        # that treats a zero count as "nothing to do" accepts a count reset to zero there)
+        he = [[1 if (i == 0 and j in (3, 7)) else 0 for j in range(256)] for i in range(p['k'])]
+        fpk1, fsig1, ok1 = fam.forge(s, rho, fam.rand_z(rng, p, 1000), he, fmsg, b'', 'pure')
+        if fsig1 is not None:
+            out.append((f"verify {s} pure bytes:{fpk1.hex()} {hx(fmsg)} - {fsig1.hex()}", 'forgery with hints in the first polynomial only', ('verify', s, fpk1, fmsg, fsig1, b'', 'pure'), ok1))
+            for tag, sg in fam.hint_section_mutations(rng, p, fsig1):
+                out.append((f"verify {s} pure bytes:{fpk1.hex()} {hx(fmsg)} - {sg.hex()}", 'malformed hint (forged, empty later polynomials): ' + tag, ('verify', s, fpk1, fmsg, sg, b'', 'pure'), False))
         # steered forgeries: one coefficient of w' = A z exactly on a Decompose / UseHint corner, hint bit set there
         srho, steered = fam.steer_forgeries(rng, s)
         for tag, z, h in steered:
@@ -68,7 +76,7 @@ def check(tier, seed):
     rep = core.Report('C02', tier, seed)
     rng = random.Random(seed)
     b = core.prepare('C02', 'Fips204/Props/C02.lean')
-    if b.cargo_errs or not b.model_ok:
+    if b.cargo_errs:
         return core.finish(rep, b, 'proof', {}, ['build failed'])
     raw = build_cases(tier, rng)
     refs = fam.ref_map([j for _, _, j, _ in raw])
